@@ -207,11 +207,13 @@ Print Assumptions C30_checker_sound_data.
    decided per history by CheckAdds.verdict30 on the real output. *)
 
 Definition i32g := mkGT 0 false false.
-(* D03: the export of global 0 names the newly imported global after add_imported_global *)
-Example C30_refuted_D03 :
+(* the former D03 witness (global exports used to be copied): the export of global 0 follows the global when
+   add_imported_global moves it to index 1, and the property holds *)
+Example C30_former_D03_witness_holds :
   let c := self_a [] [99] [(1, mkGP i32g (Some [IVal (VI32 5)]))] [] [] [mkEx 1 1 0 false] false
              [OAddImpGlobal 2 i32g] [(SG, 0); (SG, 1)] in
-  agree c = true /\ dom_of (verdict30 c) = true /\ holds_of (verdict30 c) = false /\ known_D03 c = true.
+  agree c = true /\ dom_of (verdict30 c) = true /\ holds_of (verdict30 c) = true /\ known_of (verdict30 c) = []
+  /\ option_map ob_exports (ao_enc c) = Some [(1, 1, 1)].
 Proof. vm_compute. repeat split; reflexivity. Qed.
 (* D24: ModuleIterator::add_global then add_imported_global return the same id *)
 Example C30_refuted_D24 :
